@@ -1,8 +1,70 @@
 import FcpModel
+/-!
+# C01 — Python codec round trip
+
+`pyEncode`/`pyDecode` are the transliteration of `fcp.serde.encode/decode` over the
+byte-level `_Buffer`.  For every schema, every struct that resolves (at any fuel, i.e.
+any nesting depth), and every in-range value, decoding the encoded bytes returns the
+value.  No bound on widths, nesting, lengths or alignment: the bit cursor is arbitrary
+at every field because the underlying lemmas carry an arbitrary prefix and suffix.
+-/
 namespace Fcp
 
-/-- placeholder while the PyCodec refinement is being proved: canonical round trip -/
-theorem C01_wire_roundtrip (t : Ty) (v : Val) (h : wf t v = true) :
-    decBytes t (encBytes t v) = some v := decBytes_encBytes t v h
+/-- **C01**: `decode(encode(v)) = v` -/
+theorem C01_roundtrip (S : Schema) (fuel : Nat) (name : String) (ty : Ty) (v : Val)
+    (hr : resolve S fuel (.struct name) = some ty) (hv : wf ty v = true) :
+    ∃ bytes, pyEncode S fuel name v = .ok bytes ∧ pyDecode S fuel name bytes = .ok v := by
+  refine ⟨encBytes ty v, pyEncode_refines S fuel name ty v hr hv, ?_⟩
+  have h := pyDecode_refines S fuel name ty (encBytes ty v) hr
+  rw [decBytes_encBytes ty v hv] at h
+  exact h
+
+/-- the encoder never fails on an in-range value and its output has `⌈bits/8⌉` bytes -/
+theorem C01_encode_total (S : Schema) (fuel : Nat) (name : String) (ty : Ty) (v : Val)
+    (hr : resolve S fuel (.struct name) = some ty) (hv : wf ty v = true) :
+    ∃ bytes, pyEncode S fuel name v = .ok bytes ∧ bytes.length = ((enc ty v).length + 7) / 8 :=
+  ⟨encBytes ty v, pyEncode_refines S fuel name ty v hr hv, pack_length _⟩
+
+/-- byte-level `_Buffer`: a `push_word` on a buffer that represents the bit string `B`
+yields a buffer that represents `B` followed by the two's-complement bits of the word -/
+theorem C01_buffer_push (b : Buf) (B : Bits) (h : BufRep b B) (w : Int) (n : Nat) :
+    ∃ b', b.pushWord w n = .ok b' ∧ BufRep b' (B ++ natBits n (toTwos n w)) :=
+  pushWord_rep h w n
+
+/-- byte-level `_Buffer`: `read_word` returns the addressed bits, or overruns exactly
+when fewer than `n` bits remain -/
+theorem C01_buffer_read (b : Buf) (n : Nat) :
+    b.readWord n = match readN n b.bits with
+      | none => .error .overrun
+      | some (x, _) => .ok (x, { b with bitaddr := b.bitaddr + n }) :=
+  readWord_spec b n
+
+/-- two's complement: signed decode inverts signed encode on the whole range, including
+the minimum `-2^(n-1)` -/
+theorem C01_signed_boundary (n : Nat) (hn : 0 < n) :
+    pySigned n (toTwos n (-(2 ^ (n - 1) : Int))) = -(2 ^ (n - 1) : Int) := by
+  have h : inRangeS n (-(2 ^ (n - 1) : Int)) := by
+    constructor
+    · omega
+    · have : (0 : Int) < 2 ^ (n - 1) := Int.pow_pos (by omega)
+      omega
+  exact ofTwos_toTwos n hn _ h
+
+/-! non-vacuity: a struct `u3, f32, str, [i5], Optional[[u7,2]]`, ids out of declaration
+order, with the minimum signed value — the hypotheses are satisfiable -/
+def C01_S : Schema := { structs := [{ name := "A", fields := [
+  { name := "o", id := 9, ty := .opt (.arr (.u 7) 2) },
+  { name := "a", id := 1, ty := .u 3 },
+  { name := "f", id := 2, ty := .f32 },
+  { name := "s", id := 3, ty := .str },
+  { name := "d", id := 4, ty := .dyn (.i 5) }] }] }
+def C01_T : Ty := .field "a" 1 (.uint 3) (.field "f" 2 .f32 (.field "s" 3 .str
+  (.field "d" 4 (.dyn (.sint 5)) (.field "o" 9 (.opt (.arr (.uint 7) 2)) .unit))))
+def C01_V : Val := .cons (.int 5) (.cons (.int 0xBF800000) (.cons (.str [104, 105])
+  (.cons (.cons (.int (-16)) (.cons (.int 15) .nil))
+  (.cons (.some (.cons (.int 127) (.cons (.int 0) .nil))) .nil))))
+example : resolve C01_S 5 (.struct "A") = some C01_T ∧ wf C01_T C01_V = true := by decide
+example : (pyEncode C01_S 5 "A" C01_V).toOption =
+    some [5, 0, 0, 252, 21, 0, 0, 0, 64, 75, 19, 0, 0, 0, 128, 47, 224, 15, 0] := by decide
 
 end Fcp
